@@ -185,6 +185,31 @@ fn calls_of(_rt: &RTCell<W, R, T>) -> u64 {
     0
 }
 
+#[cfg(xray_verif)]
+fn alog_start() {
+    xray::runtime::verif_alloc_log::start()
+}
+#[cfg(not(xray_verif))]
+fn alog_start() {}
+#[cfg(xray_verif)]
+fn alog_take() -> Vec<(char, usize, bool)> {
+    xray::runtime::verif_alloc_log::take()
+}
+#[cfg(not(xray_verif))]
+fn alog_take() -> Vec<(char, usize, bool)> {
+    vec![]
+}
+
+fn alog_txt() -> String {
+    let l = alog_take();
+    alog_start();
+    let txt: Vec<String> = l
+        .iter()
+        .map(|(k, sz, ok)| format!("{k}{sz}{}", if *ok { "" } else { "!" }))
+        .collect();
+    txt.join(" ")
+}
+
 fn run_job(job: &Value) -> Value {
     let mut out = Map::new();
     out.insert("id".into(), job.get("id").cloned().unwrap_or(Value::Null));
@@ -240,6 +265,10 @@ fn run_job(job: &Value) -> Value {
     // ---- instantiate
     let limits = mk_limits(job.get("limits"));
     let now = job.get("now").and_then(|x| x.as_f64()).unwrap_or(1_000_000.0);
+    let want_alog = job.get("alloc_log").and_then(|s| s.as_bool()).unwrap_or(false);
+    if want_alog {
+        alog_start();
+    }
     let runtime: RTCell<W, R, T> = limits.to_runtime(RecWriter, RecClock(now));
     let base = bytes_of(&runtime);
     let mut bytes = Map::new();
@@ -265,6 +294,10 @@ fn run_job(job: &Value) -> Value {
         }
     };
     bytes.insert("inst".into(), json!(bytes_of(&runtime)));
+    let mut alog = Map::new();
+    if want_alog {
+        alog.insert("inst".into(), json!(alog_txt()));
+    }
     out.insert("ud_calls_inst".into(), json!(calls_of(&runtime)));
 
     if let Some(scope) = &scope {
@@ -339,6 +372,9 @@ fn run_job(job: &Value) -> Value {
         drop(kept);
     }
     bytes.insert("end".into(), json!(bytes_of(&runtime)));
+    if want_alog {
+        alog.insert("run".into(), json!(alog_txt()));
+    }
     out.insert("ud_calls".into(), json!(calls_of(&runtime)));
     let dropped = catch_unwind(AssertUnwindSafe(|| drop(scope)));
     if dropped.is_err() {
@@ -348,6 +384,10 @@ fn run_job(job: &Value) -> Value {
         );
     }
     bytes.insert("after_drop".into(), json!(bytes_of(&runtime)));
+    if want_alog {
+        alog.insert("drop".into(), json!(alog_txt()));
+        out.insert("alloc_log".into(), Value::Object(alog));
+    }
     out.insert("bytes".into(), Value::Object(bytes));
     out.insert(
         "stdout".into(),
